@@ -86,6 +86,50 @@ func monC17DidHandlerGrid(s *Stream) {
 				}
 			}
 		}
+		// controllers in every state: registered, deactivated, never registered, the document's own id, empty strings
+		{
+			g := sdk.WrapSDKContext(c.DeliverCtx())
+			mk := func(seed string) (*didKey, string, *didtypes.DIDDocument) {
+				k := newDidKey(seed)
+				did := didtypes.NewDID(k.pub)
+				vmID := did + "#key1"
+				d := didtypes.NewDIDDocument(did, didtypes.WithVerificationMethods([]*didtypes.VerificationMethod{{Id: vmID, Type: didtypes.ES256K_2019, Controller: did, PublicKeyBase58: k.b58}}),
+					didtypes.WithAuthentications([]didtypes.VerificationRelationship{rel(vmID)}))
+				return k, did, &d
+			}
+			kr, dr, docr := mk("grid-ctl-registered")
+			sr, _ := didtypes.Sign(docr, 0, kr.priv)
+			ms.CreateDID(g, &didtypes.MsgCreateDIDRequest{Did: dr, Document: docr, VerificationMethodId: dr + "#key1", Signature: sr, FromAddress: from})
+			kd, dd, docd := mk("grid-ctl-deactivated")
+			sd, _ := didtypes.Sign(docd, 0, kd.priv)
+			ms.CreateDID(g, &didtypes.MsgCreateDIDRequest{Did: dd, Document: docd, VerificationMethodId: dd + "#key1", Signature: sd, FromAddress: from})
+			sdd, _ := didtypes.Sign(&didtypes.DIDDocument{Id: dd}, 0, kd.priv)
+			ms.DeactivateDID(g, &didtypes.MsgDeactivateDIDRequest{Did: dd, VerificationMethodId: dd + "#key1", Signature: sdd, FromAddress: from})
+			_, dn, _ := mk("grid-ctl-never-registered")
+			for i, ctl := range [][]string{{dr}, {dd}, {dn}, {dn, dr}, {""}, {"", ""}} {
+				k, did, doc := mk(fmt.Sprintf("grid-ctl-subject-%d", i))
+				cl := didtypes.JSONStringOrStrings(append([]string{}, ctl...))
+				doc.Controller = &cl
+				sig, _ := didtypes.Sign(doc, 0, k.priv)
+				m := &didtypes.MsgCreateDIDRequest{Did: did, Document: doc, VerificationMethodId: did + "#key1", Signature: sig, FromAddress: from}
+				if m.ValidateBasic() == nil {
+					if r := try(fmt.Sprintf("CreateDID with controller list #%d", i), func() error { _, err := ms.CreateDID(g, m); return err }); r != "" {
+						return r
+					}
+				}
+				cl2 := didtypes.JSONStringOrStrings(append([]string{did}, ctl...))
+				doc2 := *doc
+				doc2.Controller = &cl2
+				seq := c.App.DidKeeper.GetDIDDocument(c.DeliverCtx(), did).Sequence
+				sig2, _ := didtypes.Sign(&doc2, seq, k.priv)
+				m2 := &didtypes.MsgUpdateDIDRequest{Did: did, Document: &doc2, VerificationMethodId: did + "#key1", Signature: sig2, FromAddress: from}
+				if m2.ValidateBasic() == nil {
+					if r := try(fmt.Sprintf("UpdateDID with controller list #%d", i), func() error { _, err := ms.UpdateDID(g, m2); return err }); r != "" {
+						return r
+					}
+				}
+			}
+		}
 		if calls < 100 {
 			return fmt.Sprintf("pass #only-%d-calls", calls)
 		}
